@@ -66,7 +66,8 @@ def value_members(cat: str, rng: random.Random, extra: int):
     future = datetime.now(UTC).replace(microsecond=0) + timedelta(seconds=3600)
     fixed = {
         "empty": [""], "blanks": ["   ", "\t"], "d1": ["7", "0"], "d10": ["1234567890"],
-        "d308": ["9" * 308, "1" + "0" * 307], "d309": ["9" * 309, "2" + "0" * 308], "d310": ["1" * 310],
+        "d308": ["9" * 308, "1" + "0" * 307], "d309": ["9" * 309, "2" + "0" * 308, str(2 ** 1024 - 1), "17976931348623159" + "0" * 292,
+                                                                     str(2 ** 1024)], "d310": ["1" * 310],
         "d4300": ["9" * 4300], "d4301": ["9" * 4301, "1" * 9000], "padded": [" 12 ", "\t3\n"],
         "plus": ["+5"], "minus": ["-5", "-0"], "minus_big": ["-" + "9" * 400],
         "underscore": ["1_0"], "unicode_digit": ["٣٤", "５"], "decimal": ["1.5", "0.0"],
@@ -213,6 +214,9 @@ def check(tier: str) -> Report:
                 exc.headers = container(shape, value)
             else:
                 exc.response = _Resp(container(shape, value))
+                if mi_ % 2:
+                    # an empty header container on the exception itself does not hide the response's
+                    exc.headers = [{}, [], (), ""][(ci_ + mi_) % 4]
             evaluations += 1
             desc = {"source": src, "shape": shape, "category": cat,
                     "value": (value[:60] + f"...({len(value)} chars)") if isinstance(value, str) and len(value) > 60 else repr(value)}
